@@ -3,33 +3,37 @@
 // field rendered canonically (type-tagged), together with what Configure.Get(key) returned.
 //
 // stdin : {"cases":[{id, kind:"key"|"lit"|"tpl", yaml, key, body, pfx, sfx, args, text, type:<T>, pre:<fval>|null}],
-//          "groups":[{gid, starts:[{yaml, comps:[{cases:[<case>...]}]}]}]}
-//         body = key or key:default (the placeholder is ${body}, the prop tag is body); kind "tpl" runs the value route
-//         only, with the tag pfx${body}sfx; args = ",required=false" and/or ",mapper=<tag key>" (appended to every tag).
-//         A group is run in a process of its own: its starts one after the other, every start ONE App.Run over all
-//         its components, every component a struct with three fields per key case (prefix, value, prop - in that
-//         order) or one field per lit / tpl case.  Cases outside groups: one App.Run per route, 250 cases per process.
-//         pre = the value the bound field holds BEFORE App.Run (a constructor default); with pre set, every route
-//         runs on a component whose field was pre-filled, and one more run ("fresh": the prefix route, for a literal
-//         the value route) binds the same thing into a zero component
-//         A group with "mutate":true checks that bound values share nothing with the configuration nor with each other:
-//         a post-processor of the driver (PostProcessAfterInitialization) visits the fields of every component of the
-//         group as soon as the component is initialised, in declaration order, and for each field FIRST takes the
-//         observation the case reports and THEN changes the bound value in place like a component that owns it may do
-//         (maps: every entry overwritten, a key added, a key deleted; slices: every element overwritten, the order
-//         reversed; through pointers, struct fields, typed elements; with "deep":true also into the maps / lists held
-//         in interface-typed positions, and `any` fields themselves).  So every field is observed after all fields
-//         before it - of the same component, of components created earlier, of earlier starts - were scribbled over.
-//         After the start Configure.Get(key) is read once more on the SAME App ("get2").
-//         <T> = {"k":"string"|"bool"|"int"|"uint"|"float"|"any"|"ptr"|"slice"|"map"|"struct",
-//                "bits":8|16|32|64|0 (0 = int/uint), "e":<T>,
-//                "f":[{"go":"Name","tags":[{"k":"yaml","v":"tag text"}...],"name":"name to render the field under","t":<T>}]}
+//
+//	 "groups":[{gid, starts:[{yaml, comps:[{cases:[<case>...]}]}]}]}
+//	body = key or key:default (the placeholder is ${body}, the prop tag is body); kind "tpl" runs the value route
+//	only, with the tag pfx${body}sfx; args = ",required=false" and/or ",mapper=<tag key>" (appended to every tag).
+//	A group is run in a process of its own: its starts one after the other, every start ONE App.Run over all
+//	its components, every component a struct with three fields per key case (prefix, value, prop - in that
+//	order) or one field per lit / tpl case.  Cases outside groups: one App.Run per route, 250 cases per process.
+//	pre = the value the bound field holds BEFORE App.Run (a constructor default); with pre set, every route
+//	runs on a component whose field was pre-filled, and one more run ("fresh": the prefix route, for a literal
+//	the value route) binds the same thing into a zero component
+//	A group with "mutate":true checks that bound values share nothing with the configuration nor with each other:
+//	a post-processor of the driver (PostProcessAfterInitialization) visits the fields of every component of the
+//	group as soon as the component is initialised, in declaration order, and for each field FIRST takes the
+//	observation the case reports and THEN changes the bound value in place like a component that owns it may do
+//	(maps: every entry overwritten, a key added, a key deleted; slices: every element overwritten, the order
+//	reversed; through pointers, struct fields, typed elements; with "deep":true also into the maps / lists held
+//	in interface-typed positions, and `any` fields themselves).  So every field is observed after all fields
+//	before it - of the same component, of components created earlier, of earlier starts - were scribbled over.
+//	After the start Configure.Get(key) is read once more on the SAME App ("get2").
+//	A group with "retry" populates the points of lazy components twice with Configure.Set in between: see retry.go.
+//	<T> = {"k":"string"|"bool"|"int"|"uint"|"float"|"any"|"ptr"|"slice"|"map"|"struct",
+//	       "bits":8|16|32|64|0 (0 = int/uint), "e":<T>,
+//	       "f":[{"go":"Name","tags":[{"k":"yaml","v":"tag text"}...],"name":"name to render the field under","t":<T>}]}
+//
 // stdout: @@JSON {"outs":[{id, get:<cval>|null, get2:<cval>|null, prefix:<obs>, value:<obs>, prop:<obs>, fresh:<obs>, pre:<fval> read back}],
-//                 "gouts":[{gid, outs:[... one per case of the group, in order ...]}]}
-//         <obs>  = {"o":"ok","f":<fval>} | {"o":"err","d":detail} | {"o":"panic","d":detail} | {"o":"hang"} | null (route not run)
-//         <fval> = {"S":hex} {"B":bool} {"I":"dec"} {"F":"shortest float text"} {"N":1} {"P":fval} {"L":[fval]}
-//                  {"M":[[hexkey,fval]...]} (keys sorted) {"T":[[matchname-hex,fval]...]} {"A":<cval>}
-//         <cval> = {"n":1} {"b":bool} {"i":"dec"} {"f":"text"} {"s":hex} {"l":[..]} {"m":[[hexkey,cval]..]} {"x":"Go type"}
+//
+//	        "gouts":[{gid, outs:[... one per case of the group, in order ...]}]}
+//	<obs>  = {"o":"ok","f":<fval>} | {"o":"err","d":detail} | {"o":"panic","d":detail} | {"o":"hang"} | null (route not run)
+//	<fval> = {"S":hex} {"B":bool} {"I":"dec"} {"F":"shortest float text"} {"N":1} {"P":fval} {"L":[fval]}
+//	         {"M":[[hexkey,fval]...]} (keys sorted) {"T":[[matchname-hex,fval]...]} {"A":<cval>}
+//	<cval> = {"n":1} {"b":bool} {"i":"dec"} {"f":"text"} {"s":hex} {"l":[..]} {"m":[[hexkey,cval]..]} {"x":"Go type"}
 //
 // Every struct type is built with reflect.StructOf (types built at run time pass through the container).
 // The parent process hands chunks of cases to child processes (re-exec with VERIF_C17_CHILD=1) under
@@ -92,14 +96,15 @@ type Case struct {
 }
 
 type Out struct {
-	ID     int `json:"id"`
-	Get    any `json:"get"`
-	Prefix any `json:"prefix"`
-	Value  any `json:"value"`
-	Prop   any `json:"prop"`
-	Fresh  any `json:"fresh"` // pre-filled cases: the same binding into a zero component
-	Pre    any `json:"pre"`   // pre-filled cases: the pre-filled field as rendered before Run
-	Get2   any `json:"get2"`  // mutating groups: Configure.Get(key) on the App of the bindings, after the holders changed their values
+	ID       int    `json:"id"`
+	Get      any    `json:"get"`
+	Prefix   any    `json:"prefix"`
+	Value    any    `json:"value"`
+	Prop     any    `json:"prop"`
+	Fresh    any    `json:"fresh"`               // pre-filled cases: the same binding into a zero component
+	Pre      any    `json:"pre"`                 // pre-filled cases: the pre-filled field as rendered before Run
+	FirstErr string `json:"first_err,omitempty"` // retry groups: what refused the first creation of the component
+	Get2     any    `json:"get2"`                // mutating groups: Configure.Get(key) on the App of the bindings, after the holders changed their values
 }
 
 type Comp struct {
@@ -116,6 +121,8 @@ type Group struct {
 	Starts []Start `json:"starts"`
 	Mutate bool    `json:"mutate"` // every holder changes its bound maps / slices in place once it is initialised
 	Deep   bool    `json:"deep"`   // ... also the maps / lists held in interface-typed positions
+	// one start whose components are lazy, requested twice with Configure.Set in between (retry.go)
+	Retry *RetrySpec `json:"retry"`
 }
 
 // mutator: a post-processor of the driver; hook sees every component right after its initialisation
@@ -683,6 +690,9 @@ func setRoute(o *Out, route string, v any) {
 
 // one group: its starts one after the other in THIS process; every start is one App.Run over all its components
 func runGroup(g Group) GroupOut {
+	if g.Retry != nil {
+		return runRetryGroup(g)
+	}
 	res := GroupOut{GID: g.GID}
 	for si := range g.Starts {
 		st := &g.Starts[si]
